@@ -5,7 +5,7 @@ import Std.Data.String.ToNat
 # Basic lemmas about the graph primitives of the structural model
 
 Effect of `updNode` / `addLink` / `delLink` / `setAttr` / `newNode` / `ensureGroup` / `freshId` /
-`deleteAll` on the observations `node?`, `links`, `child?`, `hasChild`, `getAttr`, `entityId`,
+`deleteAll` / `deleteObjs` on the observations `node?`, `links`, `child?`, `hasChild`, `getAttr`, `entityId`,
 `kindOf`, with the frame facts for other keys / other attributes. No invariant is assumed here
 unless a hypothesis says so; the invariant `WF` and its preservation live in `StoreWF.lean`.
 
@@ -628,6 +628,53 @@ theorem getAttr_deleteAll (g : Graph) (ids : List String) (k : Nat) (a : String)
 theorem links_deleteAll_sublist (g : Graph) (ids : List String) (k : Nat) :
     ((g.deleteAll ids).links k).Sublist (g.links k) := by
   rw [links_deleteAll]; exact List.filter_sublist
+
+/-! ## deleteObjs (`delete_all` after the repair: by object) -/
+
+/-- the filter `delete_all(objs)` applies to every link list -/
+def keepObj (ks : List Nat) (l : String × Nat) : Bool := !ks.contains l.2
+
+theorem keys_deleteObjs (g : Graph) (ks : List Nat) : keys (g.deleteObjs ks) = keys g := by
+  simp [keys, Graph.deleteObjs, List.map_map, Function.comp_def]
+theorem nextKey_deleteObjs (g : Graph) (ks : List Nat) : (g.deleteObjs ks).nextKey = g.nextKey := rfl
+theorem nextId_deleteObjs (g : Graph) (ks : List Nat) : (g.deleteObjs ks).nextId = g.nextId := rfl
+
+theorem node?_deleteObjs (g : Graph) (ks : List Nat) (k : Nat) :
+    (g.deleteObjs ks).node? k =
+      (g.node? k).map fun n => { n with links := n.links.filter (keepObj ks) } := by
+  unfold Graph.node? Graph.deleteObjs
+  simp only
+  generalize g.nodes = l
+  induction l with
+  | nil => rfl
+  | cons a rest ih =>
+    simp only [List.map_cons, List.find?]
+    by_cases hk : a.1 = k
+    · simp only [hk, beq_self_eq_true, Option.map_some]
+      rfl
+    · have : (a.1 == k) = false := by simpa using hk
+      simp only [this]
+      exact ih
+
+theorem node?_isSome_deleteObjs (g : Graph) (ks : List Nat) (k : Nat) :
+    ((g.deleteObjs ks).node? k).isSome = (g.node? k).isSome := by
+  rw [node?_deleteObjs]; simp
+
+theorem links_deleteObjs (g : Graph) (ks : List Nat) (k : Nat) :
+    (g.deleteObjs ks).links k = (g.links k).filter (keepObj ks) := by
+  unfold Graph.links
+  rw [node?_deleteObjs]
+  cases g.node? k <;> simp
+
+theorem getAttr_deleteObjs (g : Graph) (ks : List Nat) (k : Nat) (a : String) :
+    (g.deleteObjs ks).getAttr k a = g.getAttr k a := by
+  unfold Graph.getAttr
+  rw [node?_deleteObjs]
+  cases g.node? k <;> simp
+
+theorem links_deleteObjs_sublist (g : Graph) (ks : List Nat) (k : Nat) :
+    ((g.deleteObjs ks).links k).Sublist (g.links k) := by
+  rw [links_deleteObjs]; exact List.filter_sublist
 
 /-! ## derived observations: entityId, kindOf -/
 
